@@ -78,15 +78,15 @@ let show_prop p = Printf.sprintf "%s.%s.%s" (string_of_n p.p_kind)
 let show_red r = Printf.sprintf "%s.%s.%s" (string_of_n (tag_code r.r_tag)) (string_of_n r.r_index) (string_of_n r.r_data)
 let show_list tag f l = String.concat " " ((tag :: string_of_int (List.length l) :: List.map f l))
 let show_flags fl = if fl = [] then "-" else String.concat "" (List.map sb fl)
-let show_obs (flags, r) =
+let show_obs sel (flags, r) =
   match r with
   | Ok b ->
-    String.concat " " ["ok"; "E"; show_flags flags;
+    String.concat " " ["ok"; "E"; show_flags flags; show_list "S" show_outpoint sel;
                        show_list "I" show_outpoint b.b_inputs; show_list "C" show_outpoint b.b_collateral;
                        show_list "M" hex_of_bytes b.b_policies; show_list "X" show_cert b.b_certs;
                        show_list "W" show_racct b.b_withdrawals; show_list "V" show_voter b.b_voters;
                        show_list "G" show_prop b.b_proposals; show_list "R" show_red b.b_redeemers]
-  | _ -> "builderr E " ^ show_flags flags
+  | _ -> "builderr E " ^ show_flags flags ^ " " ^ show_list "S" show_outpoint sel
 
 (* ---- parsing the implementation's observation ---- *)
 let split_on c s = String.split_on_char c s
@@ -109,6 +109,14 @@ let parse_red s = match split_on '.' s with
   | [t; i; d] -> { r_tag = tag_of_code (int_of_string t); r_index = n_of_string i; r_data = n_of_string d }
   | _ -> failwith "obs: redeemer"
 
+(* the inputs the builder selected by itself (coin selection), reported by the harness after the flags *)
+let parse_selected (impl : string list) : outpoint list =
+  match impl with
+  | _ :: "E" :: _ :: "S" :: n :: rest ->
+    let rec take k l = if k = 0 then [] else (match l with x :: t -> parse_outpoint x :: take (k - 1) t | [] -> failwith "obs: S") in
+    take (int_of_string n) rest
+  | _ -> []
+
 let parse_built (impl : string list) : built option =
   match impl with
   | "ok" :: "E" :: _ :: rest ->
@@ -118,6 +126,7 @@ let parse_built (impl : string list) : built option =
     let section tag f = if next () <> tag then failwith ("obs: expected " ^ tag) else begin
         let n = int_of_string (next ()) in
         let rec rep k = if k = 0 then [] else let x = f (next ()) in x :: rep (k - 1) in rep n end in
+    let _ = section "S" parse_outpoint in
     let i = section "I" parse_outpoint in
     let c = section "C" parse_outpoint in
     let m = section "M" bytes_of_hex in
@@ -135,13 +144,34 @@ let show_verdict = function
   | FailsKnown c -> (match int_of_n c with
       | 1 -> "fails:C10-collateral-plutus"
       | 2 -> "fails:C10-proposal-redeemer-without-script"
-      | 3 -> "fails:C10-stale-spend-witness"
       | _ -> "fails:-")
   | FailsUnknown -> "fails:-"
 
+(* cross-check stream for the trusted transcription of the ledger's orders: `ord <type> <a> <b> <lt|gt|eq>` (hand-written
+   vectors, corpus/C10/ledger-orders.case) and `lock <kind> <script> <0|1>` for the certificate table; the model result is what
+   the SPEC functions of PointersSpec.v say *)
+let cmp3 ltb a b = if ltb a b then "lt" else if ltb b a then "gt" else "eq"
+let ord_case (toks : string list) : (string * string) option =
+  match toks with
+  | ["ord"; ty; a; b; expected] ->
+    let got = (match ty with
+        | "txin" -> cmp3 outpoint_ledger_ltb (parse_outpoint a) (parse_outpoint b)
+        | "policy" -> cmp3 policy_ledger_ltb (bytes_of_hex a) (bytes_of_hex b)
+        | "racct" -> cmp3 racct_ledger_ltb (parse_racct a) (parse_racct b)
+        | "voter" -> cmp3 voter_ledger_ltb (parse_voter a) (parse_voter b)
+        | _ -> failwith "ord: type") in
+    Some ("ord " ^ got, if got = expected then "holds" else "fails:-")
+  | ["lock"; kind; script; expected] ->
+    let got = sb (ledger_cert_script_locked { c_kind = n_of_string kind; c_script = b01 script; c_id = n_of_int 0 }) in
+    Some ("lock " ^ got, if got = expected then "holds" else "fails:-")
+  | _ -> None
+
 let () = run_driver (fun toks impl ->
-  let ops = parse_ops toks in
-  let m = show_obs (model_obs ops) in
+  match ord_case toks with Some r -> r | None ->
+  (* inputs selected by add_inputs_from count as further add-key-input calls (coin selection itself is not C10's subject) *)
+  let sel = parse_selected impl in
+  let ops = parse_ops toks @ List.map (fun o -> OpIn (InKey o)) sel in
+  let m = show_obs sel (model_obs ops) in
   let v = match impl with
     | [] -> "na"                                         (* no implementation result given *)
     | "builderr" :: _ -> "na"                            (* nothing was built: the property speaks about built transactions *)
